@@ -241,14 +241,14 @@ def layers(tier):
     # labels, extra columns, pandas str columns
     small = [(i, j) for (i, j) in pairs if len(T[i]) <= 2 and len(T[j]) <= 2]
     pjobs = [{'maxrows': mr, 'pairs': small[k:k + 5], 'n_jobs': [1, 2], 'pres': p, 'removed_rows': False}
-             for p in (3, 5) for k in range(0, len(small), 5)]
+             for p in (3, 5, 6) for k in range(0, len(small), 5)]
     return [Layer('missing', 'checks.c08:w_missing', jobs,
                   '%d pairs of tables with 0..%d rows over {missing, "a", "a b"} (quick: 3x3-row pairs only over {missing, "a"}; thorough: all 1600) x 6 joins + 5 filter_tables '
                   'x allow_missing in {False,True} (differential) x score / output attributes x n_jobs; '
                   'filter_pair, filter_candset and apply_matcher on the full cross product; non-trivial = at '
                   'least one pair with a missing side' % (len(pairs), mr), min_nontrivial=1000, chunksize=1),
             Layer('presentations', 'checks.c08:w_missing', pjobs,
-                  'the %d pairs of tables with <= 2 rows under two further presentations (NaN as missing marker, '
+                  'the %d pairs of tables with <= 2 rows under three further presentations (NaN / pd.NA as missing marker, NA-backed string dtype, '
                   'duplicate and string index labels, negative / string keys, extra columns, reversed column order, '
                   'pandas str columns), whatever VERIF_SEED is' % len(small), min_nontrivial=100, chunksize=1),
             config_layer(['C08'], quick), filter_config_layer(['C08'], quick), matcher_config_layer(['C08'], quick)]
